@@ -70,13 +70,16 @@ pub fn analyze(text: &str, index: &LineIndex, resolver: &dyn ModuleResolver) -> 
     let mut program = Program::new();
     let mut module_cache = ModuleCache::new();
     let mut recorder = Recorder::default();
+    // The top-level parameter is nil: pass the id of the nil *type* (`NIL` is a tuple id; type id
+    // 0 of a fresh program is `never`, under which any use of the flowing value type-checks).
+    let parameter_type_id = program.register_type(quiver_core::types::Type::Tuple(NIL));
     let result = Compiler::compile(
         ast,
         &HashMap::new(),
         &mut module_cache,
         resolver,
         &mut program,
-        NIL,
+        parameter_type_id,
         &process_types,
         builtins(),
         Some(&mut recorder),
